@@ -7,7 +7,8 @@ Open Scope Z_scope.
 
 Definition rd_waiting (p : rpc) : bool := match p with RState | RArm | RParked => true | _ => false end.
 Definition rd_pre (p : rpc) : bool := match p with RIdle | RCheck | RState | RArm | RDone => true | _ => false end.
-Definition lc_mid_open (l : lpc) : bool := match l with LCased SOpen | LCleaned SOpen => true | _ => false end.
+Definition lc_mid_open (l : lpc) : bool :=
+  match l with LCased SOpen | LCleaned SOpen | LCased SLocalHalf | LCleaned SLocalHalf => true | _ => false end.
 
 Record WInv (s : st) : Prop := {
   w_n1 : (0 < pend s)%nat -> rd_waiting (rd s) = true -> token s = true \/ epc s = true;
@@ -68,7 +69,7 @@ Proof.
   cbn in h1, h2, h3, h4, h5, h6, h7, h8, h9.
   destruct e; cbn [step]; unfold reader_step, wake, finish_early, finish_late, move_to, set_rd;
     cbn [pend rbuf token closeN ss epc ppc lc sclosing dpc now dl tmr tch use_t armed rd minsz res];
-    brk; constructor; fld.
+    brk; constructor; fld. Show.
 Qed.
 
 Lemma winv_run : forall evs s, WInv s -> WInv (run evs s).
